@@ -88,6 +88,32 @@ pub fn check_step_at(name: &str, cj: &Value, cs: &[C5], t: usize, t_abs: usize, 
 			ensure!(in_range(vals[0], 0.0, 1.0, d1), "C12:StochasticOscillator:range-k", "{}", desc("%K", vals[0]));
 			ensure!(in_range(vals[1], 0.0, 1.0, d1), "C12:StochasticOscillator:range-d", "{}", desc("%D", vals[1]));
 		}
+		"TrendStrengthIndex" => {
+			if !exempt_nonfinite {
+				// the correlation of the window with time, p / sqrt(q): q is the window's variance obtained as the
+				// difference of two running sums (sy2 - sy^2/n, magnitude M^2 each), p a difference of two running
+				// means (magnitude M each) - the documented interval holds up to these two cancellations
+				let n = cj["period"].as_u64().unwrap_or(2) as usize;
+				let s = cj["source"].as_str().unwrap_or("close");
+				let xs: Vec<f64> = window_of(cs, t_rel, n).map(|k| src_of(k, s)).collect();
+				let mean = xs.iter().sum::<f64>() / n as f64;
+				let sigma = (xs.iter().map(|x| (x - mean) * (x - mean)).sum::<f64>() / n as f64).sqrt();
+				let big = match s {
+					"volume" => mv,
+					"close" | "open" | "high" | "low" | "hl2" | "tp" => m,
+					_ => m * mv,
+				};
+				let big = xs.iter().fold(big, |a, x| a.max(x.abs()));
+				let d = allow(n, t_abs, 1.0, 1.0) * (big / sigma + big * big / (sigma * sigma));
+				if d.is_finite() && d <= 0.25 {
+					st.ratio(((vals[0].abs() - 1.0) / d).max(0.0));
+					ensure!(in_range(vals[0], -1.0, 1.0, d), "C12:TrendStrengthIndex:range", "{} (allowance {d:e}, window deviation {sigma:e})", desc("trend strength", vals[0]));
+					st.count("tsi_range_steps", 1);
+				} else {
+					st.count("tsi_range_exempt_ill_conditioned", 1);
+				}
+			}
+		}
 		"ChandeMomentumOscillator" => ensure!(in_range(vals[0], -1.0, 1.0, d1), "C12:ChandeMomentumOscillator:range", "{}", desc("CMO", vals[0])),
 		"ChaikinMoneyFlow" => {
 			if !exempt_nonfinite {
@@ -247,6 +273,16 @@ pub fn def(tier: Tier) -> PropertyDef {
 		// long one-sided trends with a zig-zag
 		let strat = (cfggen::config_strategy(name, opts), gen::trend_candle_stream(tier.pick(2500, 12000))).prop_map(|(cfg, s)| RCase { cfg, s });
 		checks.push(pt(&format!("trend_{name}"), tier.pick(60, 1000), strat, run_indicator));
+		if name == "TrendStrengthIndex" {
+			// exactly linear stretches longer than the window: the correlation reaches +-1 exactly (seed S150)
+			let strat = cfggen::config_strategy(name, opts)
+				.prop_flat_map(move |cfg| {
+					let p = cfggen::max_period(&cfg.cfg).clamp(2, 260) as u32;
+					(Just(cfg), gen::ramp_candle_stream_n(p, 2000))
+				})
+				.prop_map(|(cfg, s)| RCase { cfg, s });
+			checks.push(pt(&format!("ramp_{name}"), tier.pick(600, 6000), strat, run_indicator));
+		}
 	}
 	checks.push(pt("methods", tier.pick(20000, 100000), gen::val_stream(2, max_len, Domain::Any, false), run_methods));
 	checks.push(pt("candle_helpers", tier.pick(6000, 60000), prop_oneof![gen::candle_stream(2, 300), gen::regime_candle_stream_n(10, 300)], run_candle_helpers));
@@ -254,7 +290,7 @@ pub fn def(tier: Tier) -> PropertyDef {
 	PropertyDef {
 		id: "C12",
 		level: "exploration",
-		rule: "(Also long one-sided trend streams with a zig-zag, <= 2500 bars / thorough 12000, sub-checks trend_*.) All 37 indicators with generated valid configurations (non-overshooting MA kinds where the range claim is conditional) on regime streams built for the configuration's longest window: volatile -> EXACTLY flat candles for 3n+2 steps -> volatile -> flat 2n+1 -> volatile, with zero-volume stretches and high == low candles (3 of 4 cases), plus the general candle streams. Oracle: pure predicates on the outputs at every step - documented intervals (Aroon, RSI, MFI, Stochastic in [0,1]; CMO, CMF, TSI-based in [-1,1]), band orderings, channel containment, SAR on the side opposite to its trend (exact), dispersion measures >= 0, clv in [-1,1], and finiteness of every value of every indicator wherever the formula is defined (exempt: CMF windows with exactly zero total volume, TrendStrengthIndex windows that are exactly constant). Allowance K*eps*(n+t)*width, no conditioning exemption. Non-trivial = a case containing an exactly flat stretch at least as long as the longest window, followed by movement.",
+		rule: "(Also long one-sided trend streams with a zig-zag, <= 2500 bars / thorough 12000, sub-checks trend_*.) All 37 indicators with generated valid configurations (non-overshooting MA kinds where the range claim is conditional) on regime streams built for the configuration's longest window: volatile -> EXACTLY flat candles for 3n+2 steps -> volatile -> flat 2n+1 -> volatile, with zero-volume stretches and high == low candles (3 of 4 cases), plus the general candle streams. Oracle: pure predicates on the outputs at every step - documented intervals (Aroon, RSI, MFI, Stochastic in [0,1]; CMO, CMF, TSI-based in [-1,1]; TrendStrengthIndex in [-1,1] up to the conditioning of its variance, K*eps*(n+t)*(M/sigma + M^2/sigma^2), steps where that exceeds 0.25 counted as exempt; sub-check ramp_TrendStrengthIndex: exactly linear stretches longer than the window on the 1/4 lattice), band orderings, channel containment, SAR on the side opposite to its trend (exact), dispersion measures >= 0, clv in [-1,1], and finiteness of every value of every indicator wherever the formula is defined (exempt: CMF windows with exactly zero total volume, TrendStrengthIndex windows that are exactly constant). Allowance K*eps*(n+t)*width, no conditioning exemption. Non-trivial = a case containing an exactly flat stretch at least as long as the longest window, followed by movement.",
 		assumptions: vec!["Keltner/Envelopes band order is claimed for non-overshooting averages of positive prices".into()],
 		exhaustive: false,
 		checks,
